@@ -14,7 +14,11 @@ mod c04;
 mod c05;
 mod c01;
 mod c02;
+mod c06;
 mod c07;
+mod c11;
+mod c12;
+pub mod units;
 mod c13;
 mod c17;
 
@@ -60,7 +64,10 @@ fn main() {
         "c03" => (c03::gen, c03::exec),
         "c04" => (c04::gen, c04::exec),
         "c05" => (c05::gen, c05::exec),
+        "c06" => (c06::gen, c06::exec),
         "c07" => (c07::gen, c07::exec),
+        "c11" => (c11::gen, c11::exec),
+        "c12" => (c12::gen, c12::exec),
         "c13" => (c13::gen, c13::exec),
         "c17" => (c17::gen, c17::exec),
         _ => { eprintln!("unknown property {}", prop); std::process::exit(2); }
